@@ -2867,6 +2867,13 @@ class PlateSlicer(Slicer):
         if left.start is None and left.stop is None and right.start is None and right.stop is None \
                 and not left_step and not right_step:
             return ':'
+        # a backwards axis is named by the labels of its first and last index, like a forwards one
+        if left_step and left.step < 0:
+            left = slice(len(self.plate.row_names) - 1 if left.start is None else left.start,
+                         1 if left.stop is None else left.stop + 2)
+        if right_step and right.step < 0:
+            right = slice(len(self.plate.column_names) - 1 if right.start is None else right.start,
+                          1 if right.stop is None else right.stop + 2)
         if left.start is None:
             left = slice(0, left.stop)
         if left.stop is None:
